@@ -276,6 +276,21 @@ def run_type(case):
         else:
             L += [f"            y = {built}", "            self.ser <<= std.to_bits(y)",
                   f"            self.rt2 <<= std.to_bits(std.from_bits[{T}](std.to_bits(y)))"]
+    # ---- the same with constant operands: deserialisation / serialisation folded at compile time
+    consts = [rnd.randrange(1 << W) for _ in range(2)] if not via_ser else []
+    for ci, cv in enumerate(consts):
+        L.append(f"            xc{ci} = std.from_bits[{T}](BitVector[{W}]('{cv:0{W}b}'))")
+        L.append(f"            self.crt{ci} <<= std.to_bits(xc{ci})")
+        for j, (p, k, w, off) in enumerate(g.leaves(t, f"xc{ci}", 0, [])):
+            L.append(f"            self.cl{ci}_{j} <<= {p}")
+    hdr = L.index("    def architecture(self):")
+    extra = []
+    for ci, cv in enumerate(consts):
+        extra.append(f"    crt{ci} = Port.output(BitVector[{W}])")
+        for j, (p, k, w, off) in enumerate(leaves):
+            lt = {'bit': 'Bit', 'bool': 'Bit'}.get(k) or pg.tsrc(k, w)
+            extra.append(f"    cl{ci}_{j} = Port.output({lt})")
+    L[hdr:hdr] = extra
     src = '\n'.join(L) + '\n'
     viol = []
     key = digest(repr(t))
@@ -338,6 +353,24 @@ def run_type(case):
                 break
             if g2.__class__ is Meta or g2 != b:
                 viol.append(violation('from_bits-of-to_bits-not-identity', f"{T}: to_bits(from_bits(to_bits(x))) = {fmt(g2, W)}, expected {b:0{W}b}", source=src))
+                break
+    for ci, cv in enumerate(consts):
+        if viol:
+            break
+        got = sim.get(f"crt{ci}")
+        cnt['comparisons'] += 1
+        cnt['constant_operand_comparisons'] += 1
+        if got.__class__ is Meta or got != cv:
+            viol.append(violation('constant-to_bits-of-from_bits-not-identity', f"{T}: to_bits(from_bits(constant {cv:0{W}b})) folded to {fmt(got, W)}", source=src))
+            break
+        for j, (p, k, w, off) in enumerate(leaves):
+            want = (cv >> off) & ((1 << w) - 1)
+            gl = sim.get(f"cl{ci}_{j}")
+            cnt['comparisons'] += 1
+            if gl.__class__ is Meta or gl != want:
+                viol.append(violation('constant-field-not-at-documented-offset',
+                                      f"{T}: from_bits(constant {cv:0{W}b}) folded leaf {p} to {fmt(gl, w)}, documented layout puts it at bits [{off + w - 1}:{off}] = {want:0{w}b}",
+                                      source=src))
                 break
     if not viol:
         cnt['types_compared'] += 1
